@@ -720,6 +720,17 @@ func (db *SiteDB) analyse(fi *FuncInfo) {
 			}
 			key := calleeKey(info, call)
 			if key == "" {
+				// builtins with an effect on shared maps/channels are events too
+				if id, ok := unparen(call.Fun).(*ast.Ident); ok && (id.Name == "delete" || id.Name == "close") && len(call.Args) >= 1 {
+					if _, isB := info.Uses[id].(*types.Builtin); isB {
+						k := id.Name + ":" + res.str(call.Args[0])
+						if deferred {
+							k = "defer:" + k
+						}
+						s.Must[k] = true
+						s.May[k] = true
+					}
+				}
 				return
 			}
 			if deferred {
@@ -781,6 +792,13 @@ func (db *SiteDB) analyse(fi *FuncInfo) {
 		case *ast.AssignStmt:
 			for _, lhs := range v.Lhs {
 				killObj(s, objOf(info, lhs))
+				if ix, ok := unparen(lhs).(*ast.IndexExpr); ok {
+					if _, isMap := info.TypeOf(ix.X).Underlying().(*types.Map); isMap {
+						k := "mapstore:" + res.str(ix.X)
+						s.Must[k] = true
+						s.May[k] = true
+					}
+				}
 			}
 			if len(v.Rhs) == 1 {
 				if call, ok := unparen(v.Rhs[0]).(*ast.CallExpr); ok {
